@@ -6,8 +6,8 @@
     endpoint x client-supplied X-Arc-Forwarded-By, with decideForward / RouteWrite / RouteQuery
     as written; invariants: at most one forward, processed only by a capable node, a capable
     node serves where received, forward targets are capable, a spoofed marker never causes
-    local processing.  A second run (MC_noprologue.cfg) models the query endpoints whose
-    handlers have no routing prologue in the code; its counterexample is a candidate only.
+    local processing.  MC_noprologue.cfg (handlers without a routing prologue: estimate before
+    2bc4585, arrow by code reading) is a negative control TLC must reject.
 (G) the same module emits every terminal state; each scenario is replayed on the real handlers
     (real routing prologues, real cluster.Router + Registry per node, in-memory HTTP between
     the nodes).  The verdict is taken from the observed hop chain and from where the request
@@ -42,11 +42,13 @@ def run(ctx):
                                  "invariants": ["AtMostOneForward", "ProcessedByCapable", "ServedWhereReceived",
                                                 "ForwardedToCapable", "ForwardedIsServed", "SpoofedMarker"],
                                  "actions_fired": {k: v[0] for k, v in mc.coverage.items() if k in ACTIONS}})
-    # endpoints that have no routing prologue in the code, modelled as they are: the model
-    # violates ProcessedByCapable there; that is a candidate, the replay below decides.
+    # negative control: endpoints modelled WITHOUT a routing prologue (estimate as it was before
+    # 2bc4585; arrow as it still is by code reading) must make TLC reject ProcessedByCapable.
     np_ = ctx.tlc("routing", "Routing", "MC_noprologue.cfg", allow_violation=True, timeout=600, workers=2)
-    ctx.note("tlc_noprologue_model", {"cfg": "MC_noprologue.cfg", "violated": np_.violated,
-                                      "meaning": "candidate only; decided by the replay on real handlers"})
+    if not np_.violated:
+        raise InfraError("negative control MC_noprologue.cfg was not rejected by TLC: the invariants are vacuous")
+    ctx.note("tlc_negative_control", {"cfg": "MC_noprologue.cfg", "violated": np_.violated,
+                                      "meaning": "handlers without routing prologue; expected to be rejected"})
 
     gen = ctx.tlc("routing", "Routing", "Gen_%s.cfg" % size, timeout=1800, workers=4)
     if not gen.traces:
